@@ -1044,6 +1044,15 @@ def check_struct(case, rec):
         rec.label("mask")
         kws["mask"] = mask.reshape(lens)
         kwu["mask"] = mask.copy()
+        # memory layouts of the same logical arrays: C order, Fortran order, transposed view (an image stored as rows = y, cols = x)
+        lay = (int(mask.sum()) + len(lens) + nf) % 3
+        if dim > 1 and lay == 1:
+            kws["mask"] = np.asfortranarray(kws["mask"])
+            fs = np.asfortranarray(fs)
+            rec.label("fortran_order_mask_and_field")
+        elif dim > 1 and lay == 2:
+            kws["mask"] = np.ascontiguousarray(kws["mask"].T).T
+            rec.label("transposed_view_mask")
     a = _ve(tags, pos_s, fs, case["edges"], mesh_type="structured", **kws)
     b = _ve(tags, grid, _field_arg(f), case["edges"], **kwu)
     _same(rec, tags, "struct-vs-unstruct", a, b)
